@@ -1,0 +1,119 @@
+//! Verification hooks for `ast-grep-config` (cargo feature `verif-hooks`, off by default).
+//!
+//! `SMap` wraps core's `VecMap` (association list standing in for `HashMap`, see
+//! `ast_grep_core::verif_hooks`) and adds the serde / schemars impls the derives in this
+//! crate need.  It derefs to `VecMap`, so it can be handed to core APIs unchanged.
+pub use ast_grep_core::verif_hooks::{VecMap, VecSet};
+use schemars::{gen::SchemaGenerator, schema::Schema, JsonSchema};
+use serde::de::{MapAccess, Visitor};
+use serde::ser::SerializeMap;
+use serde::{Deserialize, Deserializer, Serialize, Serializer};
+use std::marker::PhantomData;
+use std::ops::{Deref, DerefMut};
+
+#[derive(Clone, Debug)]
+pub struct SMap<K, V>(pub VecMap<K, V>);
+
+impl<K, V> Default for SMap<K, V> {
+  fn default() -> Self {
+    SMap(VecMap::default())
+  }
+}
+impl<K: Eq, V> SMap<K, V> {
+  pub fn new() -> Self {
+    SMap(VecMap::new())
+  }
+}
+impl<K: Eq, V> SMap<K, V> {
+  pub fn into_values(self) -> impl Iterator<Item = V> {
+    self.0.into_values()
+  }
+}
+impl<K: Eq + std::borrow::Borrow<Q>, Q: ?Sized + Eq, V> std::ops::Index<&Q> for SMap<K, V> {
+  type Output = V;
+  fn index(&self, k: &Q) -> &V {
+    &self.0[k]
+  }
+}
+impl<K, V> Deref for SMap<K, V> {
+  type Target = VecMap<K, V>;
+  fn deref(&self) -> &Self::Target {
+    &self.0
+  }
+}
+impl<K, V> DerefMut for SMap<K, V> {
+  fn deref_mut(&mut self) -> &mut Self::Target {
+    &mut self.0
+  }
+}
+impl<K: Eq, V> FromIterator<(K, V)> for SMap<K, V> {
+  fn from_iter<I: IntoIterator<Item = (K, V)>>(iter: I) -> Self {
+    SMap(iter.into_iter().collect())
+  }
+}
+impl<K, V> IntoIterator for SMap<K, V> {
+  type Item = (K, V);
+  type IntoIter = <VecMap<K, V> as IntoIterator>::IntoIter;
+  fn into_iter(self) -> Self::IntoIter {
+    self.0.into_iter()
+  }
+}
+impl<'a, K: Eq, V> IntoIterator for &'a SMap<K, V> {
+  type Item = (&'a K, &'a V);
+  type IntoIter = <&'a VecMap<K, V> as IntoIterator>::IntoIter;
+  fn into_iter(self) -> Self::IntoIter {
+    (&self.0).into_iter()
+  }
+}
+impl<K: Eq + Serialize, V: Serialize> Serialize for SMap<K, V> {
+  fn serialize<S: Serializer>(&self, s: S) -> Result<S::Ok, S::Error> {
+    let mut m = s.serialize_map(Some(self.0.len()))?;
+    for (k, v) in self.0.iter() {
+      m.serialize_entry(k, v)?;
+    }
+    m.end()
+  }
+}
+impl<'de, K: Eq + Deserialize<'de>, V: Deserialize<'de>> Deserialize<'de> for SMap<K, V> {
+  fn deserialize<D: Deserializer<'de>>(d: D) -> Result<Self, D::Error> {
+    struct Vis<K, V>(PhantomData<(K, V)>);
+    impl<'de, K: Eq + Deserialize<'de>, V: Deserialize<'de>> Visitor<'de> for Vis<K, V> {
+      type Value = SMap<K, V>;
+      fn expecting(&self, f: &mut std::fmt::Formatter) -> std::fmt::Result {
+        f.write_str("a map")
+      }
+      fn visit_map<A: MapAccess<'de>>(self, mut a: A) -> Result<Self::Value, A::Error> {
+        let mut m = SMap::new();
+        while let Some((k, v)) = a.next_entry()? {
+          m.insert(k, v);
+        }
+        Ok(m)
+      }
+    }
+    d.deserialize_map(Vis(PhantomData))
+  }
+}
+impl<K: JsonSchema, V: JsonSchema> JsonSchema for SMap<K, V> {
+  fn schema_name() -> String {
+    <std::collections::HashMap<K, V> as JsonSchema>::schema_name()
+  }
+  fn json_schema(gen: &mut SchemaGenerator) -> Schema {
+    <std::collections::HashMap<K, V> as JsonSchema>::json_schema(gen)
+  }
+}
+
+/// re-exports of the per-module wrappers and of types that are otherwise only reachable
+/// through serde (their modules are private)
+pub use crate::combined::verif_hooks as combined;
+pub use crate::fixer::verif_hooks as fixer;
+pub use crate::fixer::SerializableFixer;
+pub use crate::maybe::Maybe;
+pub use crate::rule::nth_child_hooks as nth_child;
+pub use crate::rule::{
+  HookNthChild as SerializableNthChild, HookRange as SerializableRange, NthChildSimple,
+  PatternStyle, Relation, SerializableStopBy, StopBy, Strictness,
+};
+pub use crate::transform::rewrite_hooks as rewrite;
+pub use crate::transform::string_case_hooks as string_case;
+pub use crate::transform::transformation_hooks as transformation;
+pub use crate::transform::{Separator, StringCase};
